@@ -467,7 +467,13 @@ func (e *Engine) verifyFunc(key string, timeoutS, seed int, allSolvers bool, sol
 		for _, g := range con.Ghosts {
 			site := strings.TrimPrefix(g.After, "before:")
 			if site != "return" && site != "entry" && !strings.HasPrefix(site, "go[") {
-				if _, ok := fr.callIdx[site]; !ok {
+				ok := false
+				for cs := range fr.callIdx {
+					if ghostSiteMatches(site, cs) {
+						ok = true
+					}
+				}
+				if !ok {
 					fe.warns = append(fe.warns, fmt.Sprintf("%s: ghost update refers to call site %s which does not exist", res.Name, site))
 				}
 			}
